@@ -46,7 +46,8 @@ fn data_frame_exact(kind: u8) {
     let have_app: bool = kani::any();
     let blen: usize = kani::any();
     kani::assume(blen <= BUFN);
-    let mut buf = [0u8; BUFN];
+    // arbitrary prior buffer contents: a reused buffer must not leak into the frame
+    let mut buf: [u8; BUFN] = kani::any();
     let frame = DataFrame {
         frame_type: ft,
         dev_addr: DevAddr::from_value(addr),
@@ -171,7 +172,8 @@ fn join_request_build_exact() {
     let c = DefaultCrypto::new(&key);
     let blen: usize = kani::any();
     kani::assume(blen <= 40);
-    let mut buf = [0u8; 40];
+    // arbitrary prior buffer contents: a reused buffer must not leak into the frame
+    let mut buf: [u8; 40] = kani::any();
     let jr = JoinRequest { join_eui: JoinEui::from_value(je), dev_eui: DevEui::from_value(de), dev_nonce: DevNonce::from_value(dn) };
     match jr.build_into(&mut buf[..blen], &c) {
         Err(_) => assert!(blen < 23, "C01: JoinRequest fits 23 bytes"),
@@ -211,7 +213,8 @@ fn join_accept_exact(cf: u8) {
     let c = DefaultNetworkCrypto::new(&key);
     let blen: usize = kani::any();
     kani::assume(blen <= 40);
-    let mut buf = [0u8; 40];
+    // arbitrary prior buffer contents: a reused buffer must not leak into the frame
+    let mut buf: [u8; 40] = kani::any();
     let ja = JoinAccept {
         join_nonce: JoinNonce::from_value(jn),
         net_id: NetId::from_value(nid),
